@@ -92,7 +92,13 @@ impl<'a> An<'a> {
     /// abandoned by a failing timeout), a `started()` configured to return an error that was
     /// reached, or a cancelled task.
     pub fn role_failed(&self, a: u8, started: &[crate::world::StartBeh]) -> bool {
-        let unmatched = self.enters.iter().any(|e| e.a == a && !self.exits.iter().any(|x| x.a == a && x.cb == e.cb && x.inc == e.inc && x.idx > e.idx));
+        self.role_failed_except(a, started, None)
+    }
+
+    /// ... where the handler of message `abandoned` was cut off by a carry-on limit (it logs no
+    /// exit and that is no failure)
+    pub fn role_failed_except(&self, a: u8, started: &[crate::world::StartBeh], abandoned: Option<u32>) -> bool {
+        let unmatched = self.enters.iter().any(|e| e.a == a && Some(e.cb) != abandoned.map(Cb::Msg) && !self.exits.iter().any(|x| x.a == a && x.cb == e.cb && x.inc == e.inc && x.idx > e.idx));
         let starts = self.enters.iter().filter(|e| e.a == a && e.cb == Cb::Started).count();
         let start_err = started.iter().take(starts).any(|b| *b != crate::world::StartBeh::Ok);
         let cancelled = self.task_of_role(a).and_then(|t| self.end_of_task(t)).is_some_and(|(_, c)| c);
